@@ -71,14 +71,15 @@ def _nm_part(table, req, qlen, tlen, tiers=("quick", "thorough")):
     c = lambda n: {"MaxLen": str(n), "Table": f'"{table}"', "ReqName": f'"{req}"', "Fixes": tlc.tla_set(["F13"])}
     return {"name": f"namemap_{table}_{req}", "driver": "namemap", "tiers": tiers,
             "design": {"module": "NameMap.tla", "invariants": ["Inv_Map", "Inv_Left"],
-                       "consts": {"quick": c(min(qlen, 3)), "thorough": c(3)}},
+                       "consts": {"quick": c(min(qlen, 3 if req != "EDGE" else 4)), "thorough": c(3)}},
             "args": {"quick": {"maxlen": qlen, "table": table, "req": req},
                      "thorough": {"maxlen": tlen, "table": table, "req": req}},
             "trace": {"module": "TraceNameMap.tla", "consts": {"quick": c(qlen), "thorough": c(tlen)}}}
 
 
 C17_PARTS = [_nm_part("T2", "CSV", 3, 4), _nm_part("T3", "GEFF", 3, 4),
-             _nm_part("T3", "CSV", 2, 3), _nm_part("T2", "GEFF", 2, 3)]
+             _nm_part("T3", "CSV", 2, 3), _nm_part("T2", "GEFF", 2, 3),
+             _nm_part("TE", "EDGE", 4, 5)]      # infer_edge_name_map
 
 _RL = lambda T, PX, L, S, M: {"T": str(T), "PX": str(PX), "L": str(L), "S": str(S), "MaxNode": str(M)}
 C13_PARTS = [
